@@ -158,7 +158,7 @@ example : (stepRaw (run s1 [.measure .digital]) (.delay 100 (.user 0) false)).er
 open Param in
 /-- **An ACCEPTED call that uses a (declared) variable makes the sequence parametrized; a refused
 one changes nothing** — neither a call refused by a store-time check (the flag is put back, repair
-of F40) nor a call with an unknown or foreign variable (repair of F3) alters the template, its
+of F41) nor a call with an unknown or foreign variable (repair of F3) alters the template, its
 mode included. -/
 theorem variable_use_parametrizes (t : Tmpl) (p : POp) (h : p.isParam = true) :
     ((tstep t p).2 = none → (tstep t p).1.param = true) ∧
